@@ -59,12 +59,17 @@ fn pair_values(r: &mut Rng, sn: usize, dw: u32, count: usize) -> Vec<B> {
     // sparse digit patterns: a small low digit under upper digits that are all equal (1, MAX, sign bit only, 2^8),
     // at every digit granularity -- representability tests that fold or combine the upper digits
     for g in [1usize, 2, 4, 8] {
-        if 3 * g <= sn && (count >= 40 || r.below(2) == 0) {
+        if 2 * g <= sn && (count >= 40 || r.below(2) == 0) {
             let mut ds: Vec<Vec<u8>> = vec![{ let mut d = vec![0u8; g]; d[0] = 1; d }, vec![0xff; g], { let mut d = vec![0u8; g]; d[g - 1] = 0x80; d }];
-            if g > 1 {
-                let mut d = vec![0u8; g];
-                d[1] = 1;
-                ds.push(d);
+            // upper digits that are multiples of 2^8, 2^16, 2^32 (zero when truncated to a narrower primitive),
+            // and their complements (equal to sign padding in the low bits only)
+            for j in [1usize, 2, 4] {
+                if g > j {
+                    let mut d = vec![0u8; g];
+                    d[j] = 1;
+                    ds.push(d.clone());
+                    ds.push(d.iter().map(|b| !b).collect());
+                }
             }
             for d in ds {
                 for upto in [sn / g, 3.min(sn / g)] {
